@@ -63,7 +63,7 @@ GUARDS = [
      lambda apis, e: (lambda cp: cp is not None and cp[0] in (ast.NotEq, ast.Eq) and all(isinstance(x, ast.Call) and call_name(x) == 'len' for x in (cp[1], cp[2])))(compare_parts(e))),
     ('D1e', 'no free variable on the right that is not an argument', lambda apis, e: 'get_vars' in apis),
     ('D1f', 'no type variable on the right that is absent from the constant\'s type',
-     lambda apis, e: bool({'get_tvars', 'get_stvars', 'get_tsubs'} & apis)),
+     lambda apis, e: bool({'get_tvars', 'get_tsubs'} & apis)),
     ('D1g', 'the constant being defined does not occur on the right at an overlapping type',
      lambda apis, e: 'get_consts' in apis),
 ]
